@@ -2578,7 +2578,12 @@ impl<'c, 's:'c, 'r, 'm:'c> SpeechRulesWithContext<'c, 's,'m> {
                 return replace_single_char(self, ch, mathml)
             } else {
                 // more than one char -- fix up non-breaking space
-                return Ok(str.replace('\u{00A0}', " ").replace(['\u{2061}', '\u{2062}', '\u{2063}', '\u{2064}'], ""))
+                let text = str.replace('\u{00A0}', " ").replace(['\u{2061}', '\u{2062}', '\u{2063}', '\u{2064}'], "");
+                if rules.pref_manager.borrow().get_tts() != crate::tts::TTS::None {
+                    // the text ends up inside SSML / SAPI5 markup: '&' and '<' (from "<mtext>a&lt;b</mtext>", etc) would be read as markup
+                    return Ok(text.replace('&', "&amp;").replace('<', "&lt;").replace('>', "&gt;"));
+                }
+                return Ok(text)
             }
         };
 
